@@ -28,7 +28,8 @@ FUNCTIONS = [
 ]
 BOUNDS = {
     "quick": "SYMBOLIC (solver variables, signed reals): every kernel entry, every value of the native frame (image, blurring image and "
-             "arbitrary values outside both), every mapping-matrix entry (1-2 columns), background sky level.  ENUMERATED: masks by forking over "
+             "arbitrary values outside both), every mapping-matrix entry (1-2 columns), background sky level.  CONCRETE: an extra integer-dtype (int64) image / blurring image / "
+             "frame with values in [-2, 2] per mask (kernel symbolic) for convolve_image, convolve_image_no_blurring and the whole-frame functions.  ENUMERATED: masks by forking over "
              "ALL interior masks (>= 1 unmasked pixel; outer ring of half a kernel masked = footprint inside the frame) of interior 3x3 for kernel "
              "(3,3), 2x3 / 3x2 for (3,5),(5,3),(1,3),(3,1), 2x2 for (1,1); 7 listed larger masks (hole, two components, checkerboard, full 5x5 block, "
              "L-shape) with kernels (3,3),(3,5),(5,3),(5,5),(1,7),(7,1); whole-frame convolution: all masks of 2x3 / 3x2 frames for 12 odd kernel "
@@ -439,6 +440,11 @@ def footprint_inside(mask, ky, kx):
     return all(hy <= y < H - hy and hx_ <= x < W - hx_ for (y, x) in ref_positions(mask))
 
 
+def int_frame(H, W, n):
+    """a concrete frame of small signed integers (int64), varied with the number of unmasked pixels of the path"""
+    return np.array([[((2 * y + 3 * x + n) % 5) - 2 for x in range(W)] for y in range(H)], dtype="int64")
+
+
 def _vec(xs):
     a = np.empty(len(xs), dtype=object)
     for i, x in enumerate(xs):
@@ -481,6 +487,16 @@ def body_convolver(inp, H, W, ky, kx, ncols):
     wf = _slim(hx.attempt(lambda: kernel.convolved_array_with_mask_from(array=v.copy(), mask=m)))
     A["whole_frame_agrees_with_convolver"] = wf
     E["whole_frame_agrees_with_convolver"] = A["convolve_image"]
+    # integer-dtype images (slim int64 values stay int64 inside Array2D): same operator, nothing may be truncated
+    vi = int_frame(H, W, n)
+    img_i = hx.attempt(lambda: aa.Array2D(values=np.array([vi[p] for p in pos], dtype="int64"), mask=m))
+    blr_i = hx.attempt(lambda: aa.Array2D(values=np.array([vi[p] for p in blur], dtype="int64"), mask=bm))
+    A["convolve_image_no_blurring(int image)"] = _slim(hx.attempt(lambda: conv.convolve_image_no_blurring(image=img_i)))
+    E["convolve_image_no_blurring(int image)"] = _vec([ref_conv_at(vi, pos, K, t) for t in pos])
+    A["convolve_image(int images)"] = _slim(hx.attempt(lambda: conv.convolve_image(image=img_i, blurring_image=blr_i)))
+    E["convolve_image(int images)"] = _vec([ref_conv_at(vi, pos + blur, K, t) for t in pos])
+    A["convolved_array_with_mask_from(int frame)"] = _slim(hx.attempt(lambda: kernel.convolved_array_with_mask_from(array=vi.copy(), mask=m)))
+    E["convolved_array_with_mask_from(int frame)"] = _vec([ref_conv_at(vi, [(y, x) for y in range(H) for x in range(W)], K, t) for t in pos])
     with merge.merging():
         bmm = hx.attempt(lambda: conv.convolve_mapping_matrix(mapping_matrix=B.copy()))
     for c in range(ncols):
@@ -577,6 +593,9 @@ def body_whole_frame(inp, H, W, ky, kx):
     # a masked input array is zero-filled before the convolution and the result is trimmed to the mask
     A["convolved_array_from(masked array)"] = _slim(masked_in)
     E["convolved_array_from(masked array)"] = _vec([ref_conv_at(v, pos, K, t) for t in pos])
+    vi = int_frame(H, W, len(pos))
+    A["convolved_array_from(int array)"] = _slim(hx.attempt(lambda: kernel.convolved_array_from(array=aa.Array2D(values=np.array([vi[p] for p in pos], dtype="int64"), mask=m))))
+    E["convolved_array_from(int array)"] = _vec([ref_conv_at(vi, pos, K, t) for t in pos])
     A["convolved_array_with_mask_from"] = _slim(with_mask)
     E["convolved_array_with_mask_from"] = _vec([ref_conv_at(v, every, K, t) for t in pos])
     return A, E
@@ -817,6 +836,7 @@ def replay(cand):
         if key is not None and k != key:
             continue
         a, e = actual.get(k), expected[k]
+        tol_k = tol_abs if "(int " not in k else 1e-7 * _absmax(inp.get("K")) * 2.0 + 1e-300      # int frames hold values in [-2, 2]
         same = None
         if k in actual and not isinstance(a, (hx.Raised, str)) and not isinstance(e, (hx.Raised, str)) and a is not None and e is not None:
             try:
@@ -825,7 +845,7 @@ def replay(cand):
                 if sa == se:
                     fa, fe = [float(x) for x in fa], [float(x) for x in fe]
                     if all(math.isfinite(x) for x in fa + fe):
-                        same = all(abs(x - y) <= tol_abs for x, y in zip(fa, fe))
+                        same = all(abs(x - y) <= tol_k for x, y in zip(fa, fe))
             except (TypeError, ValueError):
                 same = None
         if same is None:
